@@ -96,8 +96,40 @@ def h1(ctx, fx, H):
     ctx.ok("C06.H1", None, "json-parts", "SDJWTJson.protected/payload/signature are written only by derive-generated code and the issuer")
 
 
+IDENTITY_CALLS = ("clone", "to_owned", "deref", "deref_mut", "as_ref", "as_mut", "borrow", "borrow_mut", "into", "from", "as_object", "as_object_mut", "unwrap", "expect", "branch", "ok_or",
+                  "ok_or_else", "map_err", "to_vec", "as_slice", "iter", "into_iter", "collect", "cloned", "copied")
+
+
+def selection_verbatim(ctx, fx, H):
+    """the selection the walkers receive is the caller's selection: the selection argument of the selection entry derives from
+    create_presentation's own selection parameter through identity conversions only — nothing is removed from, added to or rewritten in it
+    before the walk (a filtered selection silently deselects claims the caller selected)"""
+    roles = walker_roles(H).get(H.sel_entry.name)
+    call = getattr(H, "sel_call", None)
+    if roles is None or call is None or roles["selection"] - 1 >= len(call.kids):
+        ctx.missing("C06.H2", "selection argument", "cannot identify the selection argument of the selection entry call")
+        return
+    P = H.present
+    arg = call.kids[roles["selection"] - 1]
+    jp = [i for i in range(1, P.arg_count + 1) if "serde_json::" in (P.local_ty(i) or "")]
+    roots = common.param_roots(arg) & set(jp)
+    muts = [x for x in walk(arg) if x.kind == "mut" and len(x.kids) == 2 and x.kids[1].kind == "call"]
+    other = [x for x in walk(arg) if x.kind == "call" and x.d["term"].get("name") not in IDENTITY_CALLS]
+    line = P.term(call.d["bb"]).get("line") if call.d.get("bb") is not None else None
+    if len(jp) == 1 and roots == set(jp) and not muts and not other:
+        ctx.ok("C06.H2", P, "selection-verbatim", "the selection handed to the walkers is create_presentation's selection parameter, unmodified", line=line)
+    elif muts or other:
+        w = (muts or other)[0]
+        nm = (w.kids[1] if w.kind == "mut" else w).d["term"].get("name")
+        ctx.finding("C06.H2", P, "selection-verbatim", "the caller's selection is modified (%s) before the selection walk: entries the caller selected can be dropped or changed, so their disclosures are "
+                    "silently missing from (or foreign ones added to) the presentation" % nm, line=line)
+    else:
+        ctx.finding("C06.H2", P, "selection-verbatim", "the selection handed to the walkers does not come from create_presentation's selection parameter: %s" % vstr(arg, 3), line=line)
+
+
 def h2(ctx, fx, H):
     npush = 0
+    selection_verbatim(ctx, fx, H)
     if H.field_out is not None:
         if H.field_out["emptied"]:
             ctx.ok("C06.H2", H.present, "selection-emptied", "the selection is written into hs_disclosures through an out-parameter, and the field is emptied before on every path", line=H.field_out["line"])
